@@ -26,7 +26,10 @@ Record payload := {
 
 Inductive hint := HAccess | HRefresh | HOther.
 
+Inductive rtype := RCode | RToken | RCodeToken.   (* response_type: "code", "token", "code token" *)
+
 Record authz := {
+  az_rtype : rtype;
   az_client : nat;
   az_redirect : string;         (* "" = parameter not sent *)
   az_scopes : list string;      (* requested *)
@@ -194,11 +197,76 @@ Definition authorize_core (cfg : config) (s : state) (cl : client) (a : authz) :
 (* NewAuthorizeRequest without request_uri: refused when pushing is enforced; the client is looked up by the
    client_id parameter; scope and audience are validated against its registration (the same checks the
    handler repeats) *)
+(* AuthorizeImplicitGrantTypeHandler (response_type=token): an access token minted by the authorization endpoint *)
+Definition implicit_session (cfg : config) (s : state) (a : authz) (exp_code : option Z) : sess :=
+  {| s_subject := az_subject a; s_exp_code := exp_code; s_exp_at := Some (round_s (now s + cf_life_at cfg));
+     s_exp_rt := None; s_exp_dev := None |}.
+
+Definition store_implicit (cfg : config) (s : state) (cl : client) (a : authz) (rid : nat) (exp_code : option Z) : state * nat :=
+  let (ka, s1) := mint s KImplicit rid in
+  let se := implicit_session cfg s a exp_code in
+  let r := {| r_id := rid; r_client := az_client a; r_cl := cl; r_rscopes := az_scopes a; r_gscopes := az_granted a;
+              r_raud := az_aud a; r_gaud := az_gaud a; r_sess := se; r_redirect := "";
+              r_challenge := ""; r_method := ""; r_at := now s |} in
+  (set_store s1 (create_implicit (st s1) ka r), ka).
+
+(* the token reaches the caller (and the log of issued credentials) only when the whole request succeeds *)
+Definition issue_implicit (cfg : config) (s : state) (cl : client) (a : authz) (rid : nat) (exp_code : option Z) : state * Z :=
+  let (s2, ka) := store_implicit cfg s cl a rid exp_code in
+  (log_add s2 [{| i_kind := KImplicit; i_key := ka; i_rid := rid; i_endpoint_token := false |}],
+   expires_in (implicit_session cfg s a exp_code) cfg (now s)).
+
+Definition authorize_implicit (cfg : config) (s : state) (cl : client) (a : authz) : state * obs :=
+  if negb (scopes_ok cfg cl (az_scopes a)) then fail s "invalid_scope"
+  else if negb (aud_ok cfg (cl_aud cl) (az_aud a)) then fail s "invalid_request"
+  else if negb (args_has (cl_grants cl) ["implicit"]) then fail s "invalid_grant"
+  else
+    let (rid, s1) := fresh_rid s in
+    let (s2, ein) := issue_implicit cfg s1 cl a rid None in
+    (s2, ok_obs [KImplicit] ein []).
+
+(* OpenIDConnectHybridHandler for response_type "code token" (no id_token): a code and an access token that
+   share the request id; the code's expiry is rounded here; the PKCE handler runs afterwards *)
+Definition authorize_hybrid (cfg : config) (s : state) (cl : client) (a : authz) : state * obs :=
+  if negb (scopes_ok cfg cl (az_scopes a)) then fail s "invalid_scope"
+  else if negb (aud_ok cfg (cl_aud cl) (az_aud a)) then fail s "invalid_request"
+  else if String.eqb (az_redirect a) "" then fail s "invalid_request"
+  else if negb (args_has (cl_grants cl) ["authorization_code"]) then fail s "invalid_grant"
+  else
+    let (rid, s1) := fresh_rid s in
+    let (k, s2) := mint s1 KCode rid in
+    let exp_code := Some (round_s (now s + cf_life_code cfg)) in
+    let se := {| s_subject := az_subject a; s_exp_code := exp_code; s_exp_at := None; s_exp_rt := None; s_exp_dev := None |} in
+    let r := {| r_id := rid; r_client := az_client a; r_cl := cl; r_rscopes := az_scopes a; r_gscopes := az_granted a;
+                r_raud := az_aud a; r_gaud := az_gaud a; r_sess := se; r_redirect := az_redirect a;
+                r_challenge := ""; r_method := ""; r_at := now s |} in
+    let s3 := set_store s2 (create_code (st s2) k r) in
+    if negb (args_has (cl_grants cl) ["implicit"]) then fail s3 "invalid_grant"
+    else
+      match pkce_validate cfg (az_challenge a) (az_method a) cl with
+      | Some e => fail (fst (store_implicit cfg s3 cl a rid exp_code)) e   (* stored, never handed out *)
+      | None =>
+          let (s4, ein) := issue_implicit cfg s3 cl a rid exp_code in
+          let s5 :=
+            if String.eqb (az_challenge a) "" && String.eqb (az_method a) "" then s4
+            else set_store s4 (create_pkce (st s4) k
+                   {| r_id := rid; r_client := az_client a; r_cl := cl; r_rscopes := az_scopes a; r_gscopes := az_granted a;
+                      r_raud := az_aud a; r_gaud := az_gaud a; r_sess := implicit_session cfg s a exp_code; r_redirect := "";
+                      r_challenge := az_challenge a; r_method := az_method a; r_at := now s |}) in
+          (log_add s5 [{| i_kind := KCode; i_key := k; i_rid := rid; i_endpoint_token := false |}],
+           ok_obs [KImplicit; KCode] ein [])
+      end.
+
 Definition authorize (cfg : config) (s : state) (a : authz) : state * obs :=
   if cf_par_enforced cfg then fail s "invalid_request"
   else match clients s (az_client a) with
        | None => fail s "invalid_client"
-       | Some cl => authorize_core cfg s cl a
+       | Some cl =>
+           match az_rtype a with
+           | RCode => authorize_core cfg s cl a
+           | RToken => authorize_implicit cfg s cl a
+           | RCodeToken => authorize_hybrid cfg s cl a
+           end
        end.
 
 (* ------------------------------------------------------------------ pushed authorization requests *)
@@ -253,7 +321,7 @@ Definition authorize_par (cfg : config) (s : state) (client_param : nat) (uri : 
       else if negb (Nat.eqb client_param (r_client pr)) then fail s1 "invalid_request"
       else
         authorize_core cfg s1 (r_cl pr)
-          {| az_client := r_client pr; az_redirect := r_redirect pr; az_scopes := r_rscopes pr; az_granted := az_granted a;
+          {| az_rtype := RCode; az_client := r_client pr; az_redirect := r_redirect pr; az_scopes := r_rscopes pr; az_granted := az_granted a;
              az_aud := r_raud pr; az_gaud := az_gaud a; az_subject := az_subject a;
              az_challenge := if String.eqb (r_challenge pr) "" then az_challenge a else r_challenge pr;
              az_method := if String.eqb (r_method pr) "" then az_method a else r_method pr |}
@@ -436,7 +504,7 @@ Definition refresh_flow (cfg : config) (s : state) (auth : option nat) (tok : pr
    an error of the first lookup, then the other table is tried *)
 Definition revoke_lookup (s : state) (key : option nat) (h : hint) : option req :=
   let rt := match find (refresh (st s)) key with Some (true, r) => Some r | _ => None end in
-  let at_ := find (access (st s)) key in
+  let at_ := lookup_access (st s) key in
   match h with
   | HAccess => match at_ with Some r => Some r | None => rt end
   | _ => match rt with Some r => Some r | None => at_ end
@@ -465,7 +533,7 @@ Definition match_scopes (cfg : config) (granted scopes : list string) : bool :=
   forallb (fun sc => String.eqb sc "" || scope_match (cf_scope cfg) granted sc) scopes.
 
 Definition introspect_access (cfg : config) (s : state) (key : option nat) (tampered : bool) (scopes : list string) : option payload :=
-  match find (access (st s)) key with
+  match lookup_access (st s) key with
   | None => None
   | Some r =>
       if expired (s_exp_at (r_sess r)) (r_at r) (cf_life_at cfg) (now s) then None
@@ -608,7 +676,7 @@ Definition run (cfg : config) (s : state) (h : list op) : state :=
    out, with the matching hint and no required scope *)
 Definition probe_one (cfg : config) (s : state) (i : nat) (e : issued) : option payload :=
   match i_kind e with
-  | KAccess => introspect cfg s {| p_ref := CRef i; p_tampered := false |} HAccess []
+  | KAccess | KImplicit => introspect cfg s {| p_ref := CRef i; p_tampered := false |} HAccess []
   | KRefresh => introspect cfg s {| p_ref := CRef i; p_tampered := false |} HRefresh []
   | _ => None
   end.
